@@ -42,6 +42,7 @@ def find_function(tree, qualname):
 
 
 ANNOT_TYPES = {
+    "qtype": "qtype",
     "int": "int",
     "bool": "bool",
     "str": "str",
@@ -50,6 +51,18 @@ ANNOT_TYPES = {
 }
 
 COQ_TYPES = {
+    "ftensor": "tensor F",
+    "i8tensor": "tensor F",
+    "u8tensor": "tensor F",
+    "qany": "qany F",
+    "optopt": "option optkind",
+    "pyfloat": "b64",
+    "qtype": "qtype",
+    "optint": "option Z",
+    "qbytes": "qbytes F",
+    "qbits": "qbits F",
+    "ftpair": "(tensor F * tensor F)",
+    "storage": "storage",
     "int": "Z",
     "bool": "bool",
     "str": "string",
@@ -75,6 +88,7 @@ class Ctx:
         self.vocab = vocab or {}
         self.fresh = 0
         self.uses_dev = False
+        self.ignored = []
 
     def tmp(self, base="tmp"):
         self.fresh += 1
@@ -118,6 +132,12 @@ class FunTranslator:
             return Expr("true" if v else "false", "bool")
         if isinstance(v, int):
             return Expr(lit(v), "int")
+        if isinstance(v, float):
+            import math
+
+            m, ex = math.frexp(v)
+            mi = int(m * (1 << 53))
+            return Expr(f"(b64_lit {lit(mi)} {lit(ex - 53)})", "pyfloat")
         if isinstance(v, str):
             return Expr('"%s"%%string' % v.replace('"', '""'), "str")
         if v is None:
@@ -125,12 +145,19 @@ class FunTranslator:
         U(e, "constant kind")
 
     def e_Name(self, e, env):
+        if e.id not in env and e.id in self.ctx.vocab.get("globals", {}):
+            coq, ty = self.ctx.vocab["globals"][e.id]
+            return Expr(coq, ty)
         if e.id not in env:
             U(e, f"unknown name {e.id}")
         ty = env[e.id]
         return Expr(cname(e.id), ty)
 
     def e_Tuple(self, e, env):
+        if len(e.elts) == 2 and not any(isinstance(el, ast.Starred) for el in e.elts):
+            a, b = self.expr(e.elts[0], env), self.expr(e.elts[1], env)
+            if a.ty == "ftensor" and b.ty in ("ftensor", "i8tensor"):
+                return Expr(f"({a.coq}, {b.coq})", "ftpair", a.pre + b.pre)
         parts, pre = [], []
         for el in e.elts:
             if isinstance(el, ast.Starred):
@@ -166,6 +193,9 @@ class FunTranslator:
             return Expr(f"(- {x.coq})", "int", x.pre)
         if isinstance(e.op, ast.Not) and x.ty == "bool":
             return Expr(f"(negb {x.coq})", "bool", x.pre)
+        ut = self.ctx.vocab.get("unops", {})
+        if (x.ty, type(e.op).__name__) in ut:
+            return Expr("(" + ut[(x.ty, type(e.op).__name__)].format(a=x.coq) + ")", x.ty, x.pre)
         U(e, "unary op")
 
     INT_OPS = {ast.Add: "+", ast.Sub: "-", ast.Mult: "*"}
@@ -193,6 +223,16 @@ class FunTranslator:
                 return Expr(f"(Z.land {a.coq} {b.coq})", "int", pre)
             if op is ast.BitOr:
                 return Expr(f"(Z.lor {a.coq} {b.coq})", "int", pre)
+        tab = self.ctx.vocab.get("binops", {})
+        if (a.ty, b.ty, op.__name__) in tab:
+            tmpl, fallible, guard = tab[(a.ty, b.ty, op.__name__)]
+            g = [("guard", None, guard.format(a=a.coq, b=b.coq))] if guard else []
+            coq = tmpl.format(a=a.coq, b=b.coq)
+            rty = self.ctx.vocab.get("binop_result", {}).get((a.ty, b.ty, op.__name__), a.ty)
+            if fallible:
+                v = self.ctx.tmp()
+                return Expr(v, rty, pre + g + [("bind", v, coq)])
+            return Expr(f"({coq})", rty, pre + g)
         if a.ty == "tensor" and b.ty == "int":
             t = self.ctx.vocab.get("tensor_int_ops", {})
             key = op.__name__
@@ -229,8 +269,36 @@ class FunTranslator:
                 U(e, "device of non-tensor")
             self.ctx.uses_dev = True
             return Expr(f'(String.eqb dev "{e.comparators[0].value}"%string)', "bool", base.pre)
-        a, b = self.expr(e.left, env), self.expr(e.comparators[0], env)
         op = type(e.ops[0])
+        r = e.comparators[0]
+        if op in (ast.Is, ast.IsNot) and isinstance(r, ast.Constant) and r.value is None:
+            a = self.expr(e.left, env)
+            if a.ty not in ("optint", "optopt"):
+                U(e, f"'is None' on {a.ty}")
+            t = f"(match {a.coq} with None => true | Some _ => false end)"
+            return Expr(t if op is ast.Is else f"(negb {t})", "bool", a.pre)
+        if op in (ast.In, ast.NotIn) and isinstance(r, (ast.Tuple, ast.List)):
+            a = self.expr(e.left, env)
+            xs = [self.expr(x, env) for x in r.elts]
+            if a.ty == "qtype" and all(x.ty == "qtype" for x in xs):
+                t = "(existsb (qtype_eqb %s) [%s])" % (a.coq, "; ".join(x.coq for x in xs))
+            elif a.ty in ("int", "optint") and all(x.ty in ("int", "none") and not x.pre for x in xs):
+                fn = "oz_in" if a.ty == "optint" else "zmem"
+                t = "(%s %s [%s])" % (fn, a.coq, "; ".join(x.coq for x in xs if x.ty == "int"))
+                if any(x.ty == "none" for x in xs):
+                    if a.ty != "optint":
+                        U(e, "None in a membership test of an int")
+                    t = f"((match {a.coq} with None => true | Some _ => false end) || {t})"
+            else:
+                U(e, "membership test form")
+            return Expr(t if op is ast.In else f"(negb {t})", "bool", a.pre)
+        a, b = self.expr(e.left, env), self.expr(e.comparators[0], env)
+        if a.ty == "optint" and b.ty == "int" and op in (ast.Eq, ast.NotEq):
+            t = f"(oz_eqb {a.coq} {b.coq})"
+            return Expr(t if op is ast.Eq else f"(negb {t})", "bool", a.pre + b.pre)
+        ct = self.ctx.vocab.get("compares", {})
+        if (a.ty, b.ty, op.__name__) in ct:
+            return Expr("(" + ct[(a.ty, b.ty, op.__name__)].format(a=a.coq, b=b.coq) + ")", "bool", a.pre + b.pre)
         if a.ty == "int" and b.ty == "int":
             if op in self.CMP:
                 return Expr(f"({a.coq} {self.CMP[op]} {b.coq})", "bool", a.pre + b.pre)
@@ -243,16 +311,33 @@ class FunTranslator:
         if any(x.ty != "bool" for x in xs):
             U(e, "boolop on non-bool")
         if any(x.pre for x in xs[1:]):
-            U(e, "short-circuit operand with effects")
+            # operands with effects (guards) are only evaluated when Python would evaluate them
+            acc = xs[-1]
+            text = self.emit_pre(acc.pre) + f"Ok {acc.coq}"
+            for x in reversed(xs[1:-1]):
+                inner = text
+                if isinstance(e.op, ast.Or):
+                    text = self.emit_pre(x.pre) + f"if {x.coq} then Ok true else (\n{ind(inner)})"
+                else:
+                    text = self.emit_pre(x.pre) + f"if {x.coq} then (\n{ind(inner)}) else Ok false"
+            v = self.ctx.tmp("b")
+            first = xs[0]
+            if isinstance(e.op, ast.Or):
+                coq = f"(if {first.coq} then Ok true else (\n{ind(text)}))"
+            else:
+                coq = f"(if {first.coq} then (\n{ind(text)}) else Ok false)"
+            return Expr(v, "bool", first.pre + [("bind", v, coq)])
         op = "&&" if isinstance(e.op, ast.And) else "||"
         return Expr("(" + f" {op} ".join(x.coq for x in xs) + ")", "bool", xs[0].pre)
 
     def e_IfExp(self, e, env):
         c, a, b = self.expr(e.test, env), self.expr(e.body, env), self.expr(e.orelse, env)
-        if a.pre or b.pre:
-            U(e, "conditional expression with effects in a branch")
         if c.ty != "bool" or a.ty != b.ty:
             U(e, "conditional expression types")
+        if a.pre or b.pre:
+            v = self.ctx.tmp("c")
+            coq = f"(if {c.coq} then (\n{ind(self.emit_pre(a.pre) + 'Ok ' + a.coq)}) else (\n{ind(self.emit_pre(b.pre) + 'Ok ' + b.coq)}))"
+            return Expr(v, a.ty, c.pre + [("bind", v, coq)])
         return Expr(f"(if {c.coq} then {a.coq} else {b.coq})", a.ty, c.pre)
 
     def e_Attribute(self, e, env):
@@ -263,6 +348,10 @@ class FunTranslator:
                 return Expr(nm, ty)
             U(e, f"self.{e.attr} not in whitelist")
         x = self.expr(e.value, env)
+        at = self.ctx.vocab.get("attrs", {})
+        if (x.ty, e.attr) in at:
+            tmpl, rty = at[(x.ty, e.attr)]
+            return Expr("(" + tmpl.format(a=x.coq) + ")", rty, x.pre)
         if x.ty == "tensor" and e.attr == "shape":
             return Expr(f"(shape {x.coq})", "shape", x.pre)
         U(e, f"attribute .{e.attr} on {x.ty}")
@@ -289,6 +378,9 @@ class FunTranslator:
                 return Expr(f"(t_slice0 {x.coq} {lo} {hi})", "tensor", x.pre + p1 + p2)
             U(e, f"slice of {x.ty}")
         i = self.expr(s, env)
+        if x.ty == "shape" and i.ty == "optint":
+            v = self.ctx.tmp("ix")
+            return Expr(v, "int", x.pre + i.pre + [("bind", v, f"py_index_opt {x.coq} {i.coq}")])
         if x.ty == "shape" and i.ty == "int":
             v = self.ctx.tmp("ix")
             return Expr(v, "int", x.pre + i.pre + [("bind", v, f"py_index {x.coq} {i.coq}")])
@@ -317,6 +409,32 @@ class FunTranslator:
             v = self.ctx.tmp("r")
             call = f"{cname(f.id)} " + " ".join(x.coq for x in xs)
             return Expr(v, sig[1], sum((x.pre for x in xs), []) + [("bind", v, call)])
+        funcs = self.ctx.vocab.get("funcs", {})
+        if fname in funcs:
+            coqname, pnames, ptys, rty = funcs[fname]
+            given = {}
+            for i, a in enumerate(args):
+                given[pnames[i]] = a
+            for k_, v_ in kws.items():
+                if k_ not in pnames or k_ in given:
+                    U(e, f"keyword {k_} of {fname}")
+                given[k_] = v_
+            if set(given) != set(pnames):
+                U(e, f"arguments of {fname}: {sorted(given)} vs {pnames}")
+            xs = []
+            for pn, pt in zip(pnames, ptys):
+                x = self.expr(given[pn], env)
+                coq = x.coq
+                if x.ty != pt:
+                    if pt == "optint" and x.ty == "int":
+                        coq = f"(Some {x.coq})"
+                    elif pt == "optint" and x.ty == "none":
+                        coq = "None"
+                    else:
+                        U(e, f"argument {pn} of {fname}: {x.ty} where {pt} expected")
+                xs.append(Expr(coq, pt, x.pre))
+            v = self.ctx.tmp("r")
+            return Expr(v, rty, sum((x.pre for x in xs), []) + [("bind", v, coqname + " " + " ".join(x.coq for x in xs))])
         # vocabulary calls
         calls = self.ctx.vocab.get("calls", {})
         if fname in calls:
@@ -336,6 +454,10 @@ class FunTranslator:
                 for t in s.targets:
                     if isinstance(t, ast.Name) and t.id not in out:
                         out.append(t.id)
+                    if isinstance(t, ast.Tuple):
+                        for el in t.elts:
+                            if isinstance(el, ast.Name) and el.id not in out:
+                                out.append(el.id)
             elif isinstance(s, ast.AugAssign):
                 t = s.target
                 while isinstance(t, ast.Subscript):
@@ -344,7 +466,7 @@ class FunTranslator:
                     out.append(t.id)
             elif isinstance(s, ast.Expr) and isinstance(s.value, ast.Call):
                 f = s.value.func
-                if isinstance(f, ast.Attribute) and f.attr == "append" and isinstance(f.value, ast.Name):
+                if isinstance(f, ast.Attribute) and f.attr in ("append", "remove") and isinstance(f.value, ast.Name):
                     if f.value.id not in out:
                         out.append(f.value.id)
             elif isinstance(s, (ast.If,)):
@@ -406,6 +528,9 @@ class FunTranslator:
             if nm is None:
                 U(s, "raise form")
             return f'Err "{nm}"%string'
+        if isinstance(s, ast.Assert) and ".dtype" in ast.unparse(s.test) or isinstance(s, ast.Assert) and ".device" in ast.unparse(s.test):
+            self.ctx.ignored.append(f"line {s.lineno}: assert {ast.unparse(s.test)} (dtype/device are not part of the model)")
+            return k(env)
         if isinstance(s, ast.Assert):
             c = self.expr(s.test, env)
             if c.ty != "bool":
@@ -413,6 +538,13 @@ class FunTranslator:
             return self.emit_pre(c.pre) + f'_ <- guard {c.coq} "AssertionError"%string ;;\n' + k(env)
         if isinstance(s, ast.FunctionDef):
             return self.local_fun(s, env, k)
+        if isinstance(s, ast.Assign) and len(s.targets) == 1 and isinstance(s.targets[0], ast.Tuple):
+            names = [t.id for t in s.targets[0].elts if isinstance(t, ast.Name)]
+            x = self.expr(s.value, env)
+            if len(names) != 2 or len(s.targets[0].elts) != 2 or x.ty != "ftpair":
+                U(s, "tuple assignment form")
+            env[names[0]] = env[names[1]] = "ftensor"
+            return self.emit_pre(x.pre) + f"let '({cname(names[0])}, {cname(names[1])}) := {x.coq} in\n" + k(env)
         if isinstance(s, ast.Assign):
             if len(s.targets) != 1 or not isinstance(s.targets[0], ast.Name):
                 U(s, "assignment target")
@@ -423,8 +555,13 @@ class FunTranslator:
                 ty = self.ctx.param_types.get(name)
                 if ty is None:
                     U(s, f"type of empty list {name} unknown")
+            coq = x.coq
+            if env.get(name) == "optint" and ty == "int":
+                ty, coq = "optint", f"(Some {x.coq})"
+            if env.get(name) == "optint" and ty == "none":
+                ty, coq = "optint", "None"
             env[name] = ty
-            return self.emit_pre(x.pre) + f"let {cname(name)} : {COQ_TYPES[ty]} := {x.coq} in\n" + k(env)
+            return self.emit_pre(x.pre) + f"let {cname(name)} : {COQ_TYPES[ty]} := {coq} in\n" + k(env)
         if isinstance(s, ast.AugAssign):
             return self.augassign(s, env, k)
         if isinstance(s, ast.Expr) and isinstance(s.value, ast.Call):
@@ -437,6 +574,9 @@ class FunTranslator:
                 if x.ty != "tensor":
                     U(s, "append non-tensor")
                 return self.emit_pre(x.pre) + f"let {cname(lst)} := ({cname(lst)} ++ [{x.coq}]) in\n" + k(env)
+            sm = self.ctx.vocab.get("stmt_methods", {})
+            if isinstance(f, ast.Attribute) and f.attr in sm and isinstance(f.value, ast.Name):
+                return sm[f.attr](self, s, env, k)
             U(s, "expression statement")
         if isinstance(s, ast.If):
             return self.if_stmt(s, env, rest, tail)
@@ -510,7 +650,61 @@ class FunTranslator:
             return self.emit_pre(p1 + x.pre) + f"{nm} <- {table[key]} {nm} {hi} {x.coq} ;;\n" + k(env)
         U(s, "augmented assignment target")
 
+    def narrow(self, test, env):
+        """(name, positive) when test is `name is not None` / `name is None` on an optint variable"""
+        if (
+            isinstance(test, ast.Compare)
+            and len(test.ops) == 1
+            and isinstance(test.ops[0], (ast.Is, ast.IsNot))
+            and isinstance(test.left, ast.Name)
+            and env.get(test.left.id) == "optint"
+            and test.left.id in self.ctx.vocab.get("narrow", ())
+            and isinstance(test.comparators[0], ast.Constant)
+            and test.comparators[0].value is None
+        ):
+            return test.left.id, isinstance(test.ops[0], ast.IsNot)
+        return None
+
     def if_stmt(self, s, env, rest, tail):
+        nr = self.narrow(s.test, env)
+        if nr is not None:
+            name, positive = nr
+            some_body, none_body = (s.body, s.orelse) if positive else (s.orelse, s.body)
+            ab, ao = self.assigned(s.body), self.assigned(s.orelse)
+            vs = [v for v in self.assigned(s.body + s.orelse) if (v in env or (v in ab and v in ao)) and v != name]
+            if name in self.assigned(s.body + s.orelse):
+                U(s, f"narrowed variable {name} is reassigned")
+            if not (self.always_returns(s.body) or self.always_returns(s.orelse)) and not vs:
+                U(s, "narrowing if without visible assignments")
+            if self.always_returns(s.body) or self.always_returns(s.orelse):
+                # branches that return: continue with the rest in the other branch
+                senv = dict(env)
+                senv[name] = "int"
+                sb = self.block(some_body + ([] if self.always_returns(some_body) else rest), senv, tail)
+                nb = self.block(none_body + ([] if self.always_returns(none_body) else rest), env, tail)
+                return f"match {cname(name)} with\n| Some {cname(name)} => (\n{ind(sb)}\n)\n| None => (\n{ind(nb)}\n)\nend"
+            tys = {}
+
+            def branch(stmts, benv):
+                def t(env2):
+                    for v in vs:
+                        tys.setdefault(v, env2[v])
+                    return "Ok " + tup([cname(v) for v in vs])
+
+                return self.block(stmts, benv, t)
+
+            senv = dict(env)
+            senv[name] = "int"
+            sb, nb = branch(some_body, senv), branch(none_body, env)
+            pat = tup([cname(v) for v in vs])
+            bindpat = pat if len(vs) == 1 else "'" + pat
+            env2 = dict(env)
+            for v in vs:
+                env2[v] = tys[v]
+            return (
+                f"{bindpat} <- (match {cname(name)} with\n| Some {cname(name)} => (\n{ind(sb)}\n)\n| None => (\n{ind(nb)}\n)\nend) ;;\n"
+                + self.block(rest, env2, tail)
+            )
         c = self.expr(s.test, env)
         if c.ty != "bool":
             U(s, "if on non-bool")
@@ -530,9 +724,10 @@ class FunTranslator:
             b = self.block(s.orelse, env, tail)
             return pre + f"if {c.coq} then (\n{ind(a)}\n) else (\n{ind(b)}\n)"
         # join on the variables assigned in either branch
-        vs = [v for v in self.assigned(s.body + s.orelse)]
+        ab, ao = self.assigned(s.body), self.assigned(s.orelse)
+        vs = [v for v in self.assigned(s.body + s.orelse) if v in env or (v in ab and v in ao)]
         if not vs:
-            U(s, "if without assignments or returns")
+            U(s, "if without assignments (visible afterwards) or returns")
         tys = {}
 
         def branch(stmts):
